@@ -11,6 +11,8 @@ the number of stacked terminators.
 -/
 import ReuseVerif.Lemmas.TagsClean
 import ReuseVerif.Lemmas.TagsEnd
+import ReuseVerif.Lemmas.TagsCopyright
+import ReuseVerif.Theorems.C20
 
 namespace C02
 open Py Model Spec
@@ -130,6 +132,102 @@ theorem C02_style_terminator_accepted (s : Generated.Style) (hs : s ∈ Generate
     have := endOk_pieces body [s.mEnd] le hp hle
     rw [starBody_eq hb]
     simpa using this
+
+/-! ### copyright notices -/
+
+/-- **Read-back of a copyright notice.**  The notice `prefix [year] holder` (any of the ten
+    generated prefixes, any year form, a well-formed holder) standing after a line prefix `pre`
+    (comment marker, indentation, …) in which the pattern does not already match, and followed by
+    any trail END accepts (blanks, stacked comment terminators): the reader finds exactly this
+    notice — prefix, year, holder, and the whole notice without `pre` and without the trail.
+
+    Partial: `earlierNone` — no copyright pattern of *higher* priority matches anywhere in the line
+    (the three patterns are tried in order on the whole line; see known finding
+    c20-reader-inner-notice).  Full statement: the same without `earlierNone`. -/
+theorem C02_copyright_exact_partial (endRe : Re) (x : Text × CPat × Text) (hx : x ∈ prefixShapes)
+    (y : YearForm) (h pre trail : Text) (hwf : WFNotice endRe x y h pre trail = true) :
+    searchLineWith endRe (pre ++ builtLine x.1 y h ++ trail) =
+      some { pref := x.1, year := y.text, statement := h, whole := builtLine x.1 y h } := by
+  unfold WFNotice at hwf
+  simp only [Bool.and_eq_true, Bool.not_eq_true'] at hwf
+  obtain ⟨⟨⟨⟨⟨⟨hy, hw⟩, he⟩, hsuf⟩, hword⟩, hpre⟩, hearlier⟩ := hwf
+  obtain ⟨hstart, hblocks, _⟩ := C20.holderStart_of_wf endRe h hw
+  have hshape : x.1 = headText x.2.1 ++ x.2.2 := by
+    have := C20.C20_prefix_table.2
+    simp only [List.all_eq_true, beq_iff_eq] at this
+    exact this x hx
+  have hE := C20.extPicked_of_shape x hx
+  have hwordE : eat wordC (h ++ trail) = none := by
+    unfold eat; rw [show wordC = "Copyright".toList from rfl, hword]; rfl
+  have hmatch : matchAt endRe x.2.1 (builtLine x.1 y h ++ trail) =
+      some { pref := x.1, year := y.text, statement := h, whole := builtLine x.1 y h } := by
+    cases y with
+    | none =>
+      have := matchAt_built_trail endRe x.2.1 x.2.2 h h trail none hE (blocks_append hblocks trail hwordE)
+        (eatYear_none (holderStart_append hstart trail)) hsuf he (Nat.le_refl _)
+      simpa [builtLine, YearForm.text, hshape, List.append_assoc] using this
+    | single yy =>
+      have hyy : fourDigits yy = true := hy
+      have hb : Blocks ((yy ++ ' ' :: h) ++ trail) := by
+        rw [List.append_assoc]; exact C20.blocks_of_year hyy _
+      have hyr : eatYear ((yy ++ ' ' :: h) ++ trail) = (some yy, h ++ trail) := by
+        have := eatYear_single hyy (holderStart_append hstart trail)
+        simpa [List.append_assoc] using this
+      have := matchAt_built_trail endRe x.2.1 x.2.2 (yy ++ ' ' :: h) h trail (some yy) hE hb hyr hsuf he
+        (by simp only [List.length_append, List.length_cons]; omega)
+      simpa [builtLine, YearForm.text, hshape, List.append_assoc] using this
+    | range y1 sp1 sp2 y2 =>
+      simp only [YearForm.wf, Bool.and_eq_true] at hy
+      have hr := eatRange_ok sp1 sp2 hy.1 hy.2 (holderStart_append hstart trail)
+      let body := y1 ++ ((if sp1 then [' '] else []) ++ ('-' :: ((if sp2 then [' '] else []) ++ (y2 ++ ' ' :: h))))
+      have hbody : body ++ trail =
+          y1 ++ ((if sp1 then [' '] else []) ++ ('-' :: ((if sp2 then [' '] else []) ++ (y2 ++ ' ' :: (h ++ trail))))) := by
+        simp [body, List.append_assoc]
+      have hb : Blocks (body ++ trail) := by rw [hbody]; exact C20.blocks_of_year hy.1 _
+      have hyr : eatYear (body ++ trail) =
+          (some (y1 ++ (if sp1 then [' '] else []) ++ ['-'] ++ (if sp2 then [' '] else []) ++ y2), h ++ trail) := by
+        rw [hbody]; simp [eatYear, hr]
+      have := matchAt_built_trail endRe x.2.1 x.2.2 body h trail _ hE hb hyr hsuf he
+        (by simp only [body, List.length_append, List.length_cons]; omega)
+      simpa [body, builtLine, YearForm.text, hshape, List.append_assoc] using this
+  have hne : builtLine x.1 y h ++ trail ≠ [] := by
+    unfold builtLine; cases y.text <;> simp
+  have hsearch : searchPat endRe x.2.1 (pre ++ builtLine x.1 y h ++ trail) =
+      some { pref := x.1, year := y.text, statement := h, whole := builtLine x.1 y h } := by
+    rw [List.append_assoc, searchPat_skip endRe x.2.1 pre _ hpre]
+    exact searchPat_of_matchAt endRe x.2.1 _ _ hne hmatch
+  unfold earlierNone at hearlier
+  unfold searchLineWith
+  simp only [List.append_assoc] at hsearch hearlier ⊢
+  cases hp : x.2.1 with
+  | spdx => rw [hp] at hsearch; simp [hsearch]
+  | word =>
+    rw [hp] at hsearch hearlier
+    simp only [Option.isNone_iff_eq_none] at hearlier
+    simp [hearlier, hsearch]
+  | sign =>
+    rw [hp] at hsearch hearlier
+    simp only [Bool.and_eq_true, Option.isNone_iff_eq_none] at hearlier
+    simp [hearlier.1, hearlier.2, hsearch]
+
+/-- the hypotheses are satisfiable: `# SPDX-FileCopyrightText: 2020 Jane Doe */ -->` -/
+example : WFNotice Generated.endRe ("SPDX-FileCopyrightText:".toList, .spdx, []) (.single "2020".toList)
+    "Jane Doe".toList "# ".toList ([" ".toList, "*/".toList, " ".toList, "-->".toList] : List Text).flatten = true := by
+  have hstar : starBody Generated.endRe = some ((starBody Generated.endRe).getD .eps) := rfl
+  have he := endAccepts_pieces ((starBody Generated.endRe).getD .eps) [" ".toList, "*/".toList, " ".toList, "-->".toList]
+    (by decide +kernel)
+  rw [← starBody_eq hstar] at he
+  have hs := noEndSuffixC_of_last Generated.endRe "Jane Doe".toList
+    ([" ".toList, "*/".toList, " ".toList, "-->".toList] : List Text).flatten (by decide +kernel) (by decide +kernel)
+  have hs0 : noEndSuffix Generated.endRe "Jane Doe".toList = true := by
+    have := noEndSuffixC_of_last Generated.endRe "Jane Doe".toList [] (by decide +kernel) (by decide +kernel)
+    have e : ∀ w, noEndSuffixBeforeC Generated.endRe w [] = noEndSuffix Generated.endRe w := by
+      intro w; induction w with
+      | nil => rfl
+      | cons c cs ih => simp [noEndSuffixBeforeC, noEndSuffix, ih]
+    rw [← e]; exact this
+  simp only [WFNotice, WFHolder, he, hs, hs0, Bool.and_true, Bool.true_and]
+  decide +kernel
 
 /-! ### an unparseable expression drops the whole file -/
 
